@@ -35,6 +35,9 @@ macro_rules! const_hist_impl {
             fn from_ranges(v: Vec<f64>) -> Result<Self, &'static str> {
                 Histogram::<$len>::from_ranges(v).map_err(ename)
             }
+            fn from_ranges_lazy(v: Vec<f64>) -> Result<Self, &'static str> {
+                Histogram::<$len>::from_ranges(v.into_iter().filter(|x| !x.is_nan() || x.is_nan())).map_err(ename)
+            }
             fn with_const_width(a: f64, b: f64) -> Self {
                 Histogram::<$len>::with_const_width(a, b)
             }
